@@ -477,12 +477,13 @@ C18_Transfer ==
 C18_Parents ==
   \A c \in Submitted : \A p \in Parents(c) : p \in sub[c].parents
 
-\* remote (upload) locations of distinct job files are distinct
+\* remote (upload) locations of distinct job files are distinct (two input resources may well name the same
+\* external file)
 Remote(c, f) == { x.src : x \in { y \in sub[c].inputs : y.dst \in Phys(c, f) } }
 C18_DistinctRemote ==
   (phase = "submitted" /\ Wellformed) =>
      \A u, v \in uses : \A f \in ReadFiles(u[2]), g \in ReadFiles(v[2]) :
-        f # g => Remote(u[1], f) \cap Remote(v[1], g) = {}
+        (f # g /\ Src(f) # 0 /\ Src(g) # 0) => Remote(u[1], f) \cap Remote(v[1], g) = {}
 
 \* write_output(r, d): the producing job copies r from where its command writes it to d
 ExtOk(f, d) ==
